@@ -25,7 +25,7 @@ ANCHORS = [
     ("pipefunc/map/_storage_array/_dict.py", ["DictArray", "_masked_empty", "SharedMemoryDictArray"]),
     ("pipefunc/map/_mapspec.py", ["shape_to_strides"]),
 ]
-RULE = ("all 258 geometries (full shapes of rank 1..3 with sizes 1..3 x all 2^rank external/internal masks) x the three "
+RULE = ("all 259 geometries (full shapes of rank 0..3 with sizes 1..3 x all 2^rank external/internal masks) x the three "
         "importable backends; operation sequences: exhaustive over a per-geometry alphabet (all in-range int dumps, "
         "slice / negative / out-of-range / wrong-rank keys, every read operation, persist-reopen) up to length 2 (3 in "
         "the thorough tier) for geometries with <= 4 elements, random up to length 12 otherwise; keys from ints in "
@@ -34,7 +34,7 @@ RULE = ("all 258 geometries (full shapes of rank 1..3 with sizes 1..3 x all 2^ra
 ASSUMPTIONS = [
     "only the three importable backends (file_array, dict, shared_memory_dict); zarr backends cannot be imported here",
     "values passed to dump have the internal shape (a scalar when internal_shape == ()); elements are ints",
-    "full rank >= 1, every axis size >= 1; linear indices of has_index/get_from_index are in [0, size)",
+    "every axis size >= 1; linear indices of has_index/get_from_index are in [0, size)",
     "get_from_index of a missing element must raise; the exception class is not fixed by the property "
     "(FileNotFoundError for FileArray, KeyError for DictArray)",
     "pickle/cloudpickle round trips are the identity on the stored values; the file system is a finite map",
@@ -311,7 +311,7 @@ def emit_case(c) -> str:
 # ------------------------------------------------------------------ generators
 def all_geometries():
     out = []
-    for r in (1, 2, 3):
+    for r in (0, 1, 2, 3):
         for full in itertools.product((1, 2, 3), repeat=r):
             for mask in itertools.product((True, False), repeat=r):
                 ext = [d for d, m in zip(full, mask) if m]
@@ -407,9 +407,12 @@ def alphabet(geo, fresh):
     for p in itertools.product(*map(range, full)):
         ops.append(["get", list(p), False])
     ops.append(["get", [["s", None, None, None]] * len(full), False])
-    ops.append(["get", [["s", None, None, -1]] + [-1] * (len(full) - 1), False])
-    ops.append(["get", [full[0]] + [0] * (len(full) - 1), False])  # out of range
-    ops.append(["get", [0] * (len(full) - 1), False])  # wrong rank
+    if full:
+        ops.append(["get", [["s", None, None, -1]] + [-1] * (len(full) - 1), False])
+        ops.append(["get", [full[0]] + [0] * (len(full) - 1), False])  # out of range
+        ops.append(["get", [0] * (len(full) - 1), False])  # wrong rank
+    else:
+        ops.append(["get", [0], False])  # wrong rank
     ops += [["to_array"], ["mask"], ["mask_linear"], ["reopen"]]
     for i in range(size):
         ops.append(["has", i])
@@ -458,16 +461,19 @@ def generate(rng, tier, mult):
         chosen = rng.sample(tiny, 3 * mult)
         plan = [(g, 2, ["file", "dict"]) for g in chosen]
     else:
-        plan = [(g, 2, ["file", "dict"]) for g in tiny]
-        plan += [(g, 3, [rng.choice(["file", "dict"])]) for g in rng.sample(tiny, 6 * mult)]
-        plan += [(g, 2, ["shm"]) for g in rng.sample(tiny, 6)]
+        # half of the tiny geometries per seed, backends alternating; one length-3 enumeration; a few on shared memory
+        chosen = rng.sample(tiny, min(len(tiny), 55 * mult))
+        plan = [(g, 2, [["file", "dict"][j % 2]]) for j, g in enumerate(chosen)]
+        small = [g for g in tiny if len(alphabet(g, Fresh())) <= 16]
+        plan += [(g, 3, [rng.choice(["file", "dict"])]) for g in rng.sample(small, min(len(small), mult))]
+        plan += [(g, 2, ["shm"]) for g in rng.sample(tiny, 3)]
     for g, length, backends in plan:
         alpha = alphabet(g, Fresh())
         for b in backends:
             for seq in itertools.product(alpha, repeat=length):
                 cases.append(store_case(b, g, list(seq)))
     # ---- random sequences on every geometry
-    n_rand = (3 if tier == "quick" else 60) * mult
+    n_rand = (3 if tier == "quick" else 30) * mult
     for g in geos:
         for j in range(n_rand):
             b = BACKENDS[j % 3] if j % 6 != 5 else rng.choice(BACKENDS)
